@@ -45,6 +45,10 @@ struct ObsCfg {
     shards: usize,
     /// the observer is itself a source of routes (echo filtering inside the window)
     obs_is_source: bool,
+    /// RIB-side operations are issued from several OS threads (one per group of source
+    /// peers, per-peer order preserved) with delay injection at the table_manager hook
+    /// points, while the observer keeps delivering / flushing on this thread
+    concurrent: bool,
 }
 
 const LOCAL_ASN: u32 = 65000;
@@ -585,15 +589,21 @@ enum PeerSt {
     LlgrUpAwaitingEor,
 }
 
+struct PeerSlot {
+    src: Arc<table::Source>,
+    st: PeerSt,
+}
+
 struct World {
     tables: TableHandle,
     cfg: ObsCfg,
-    sources: Vec<Arc<table::Source>>,
-    st: Vec<PeerSt>,
+    /// one slot per source peer; the slot's lock is held across the table call so
+    /// that one peer's operations keep their order (one session = one task)
+    peers: Vec<std::sync::Mutex<PeerSlot>>,
     attrs: Vec<Arc<Vec<packet::Attribute>>>,
     exp: Vec<Option<Arc<table::PolicyAssignment>>>,
     imp: Vec<Option<Arc<table::PolicyAssignment>>>,
-    ts: u32,
+    ts: std::sync::atomic::AtomicU32,
 }
 
 impl World {
@@ -614,46 +624,49 @@ impl World {
         World {
             tables,
             cfg: cfg.clone(),
-            sources: (0..N_PEERS).map(|i| World::new_source(cfg, i)).collect(),
-            st: vec![PeerSt::Up; N_PEERS],
+            peers: (0..N_PEERS)
+                .map(|i| std::sync::Mutex::new(PeerSlot { src: World::new_source(cfg, i), st: PeerSt::Up }))
+                .collect(),
             attrs: attr_pool(1000),
             exp: export_policies(cfg),
             imp: import_policies(cfg),
-            ts: 1,
+            ts: std::sync::atomic::AtomicU32::new(1),
         }
     }
 
     /// Apply a RIB-side operation the way the daemon's session / timer code would.
     /// Returns false when the op is not applicable in the current state (then it is a no-op).
-    fn apply(&mut self, op: &Op) -> bool {
+    fn apply(&self, op: &Op) -> bool {
         let f = family(&self.cfg);
-        self.ts += 1;
+        let ts = self.ts.fetch_add(1, Ordering::Relaxed) + 1;
         match *op {
             Op::Announce { peer, pfx, pid, attr, nh } => {
-                if matches!(self.st[peer], PeerSt::GrDown | PeerSt::Llgr) {
+                let slot = self.peers[peer].lock().unwrap();
+                if matches!(slot.st, PeerSt::GrDown | PeerSt::Llgr) {
                     return false; // no live session
                 }
                 self.tables.insert_route(
-                    self.sources[peer].clone(),
+                    slot.src.clone(),
                     f,
                     packet::PathNlri { path_id: pid, nlri: prefix(&self.cfg, pfx) },
                     Some(nexthop(&self.cfg, nh)),
                     self.attrs[attr].clone(),
                     None,
-                    self.ts,
+                    ts,
                 );
                 true
             }
             Op::Withdraw { peer, pfx, pid } => {
-                if matches!(self.st[peer], PeerSt::GrDown | PeerSt::Llgr) {
+                let slot = self.peers[peer].lock().unwrap();
+                if matches!(slot.st, PeerSt::GrDown | PeerSt::Llgr) {
                     return false;
                 }
                 self.tables.remove_route(
-                    self.sources[peer].clone(),
+                    slot.src.clone(),
                     f,
                     packet::PathNlri { path_id: pid, nlri: prefix(&self.cfg, pfx) },
                     None,
-                    self.ts,
+                    ts,
                 );
                 true
             }
@@ -662,71 +675,81 @@ impl World {
                     return false; // the observer's own session stays up
                 }
                 // non-GR drop (session_loop: every family dropped), then a new session later
+                let mut slot = self.peers[peer].lock().unwrap();
                 self.tables.unregister_peer(peer_addr(peer), &[f], &[]);
-                self.sources[peer] = World::new_source(&self.cfg, peer);
-                self.st[peer] = PeerSt::Up;
+                slot.src = World::new_source(&self.cfg, peer);
+                slot.st = PeerSt::Up;
                 true
             }
             Op::GrDown { peer } => {
-                if peer == 0 || !matches!(self.st[peer], PeerSt::Up | PeerSt::GrUpAwaitingEor) {
+                let mut slot = self.peers[peer].lock().unwrap();
+                if peer == 0 || !matches!(slot.st, PeerSt::Up | PeerSt::GrUpAwaitingEor) {
                     return false;
                 }
                 // GR-eligible drop: negotiated family kept and marked stale
                 self.tables.unregister_peer(peer_addr(peer), &[], &[f]);
-                self.st[peer] = PeerSt::GrDown;
+                slot.st = PeerSt::GrDown;
                 true
             }
-            Op::GrUp { peer } => match self.st[peer] {
-                PeerSt::GrDown => {
-                    self.sources[peer] = World::new_source(&self.cfg, peer);
-                    self.st[peer] = PeerSt::GrUpAwaitingEor;
-                    true
+            Op::GrUp { peer } => {
+                let mut slot = self.peers[peer].lock().unwrap();
+                match slot.st {
+                    PeerSt::GrDown => {
+                        slot.src = World::new_source(&self.cfg, peer);
+                        slot.st = PeerSt::GrUpAwaitingEor;
+                        true
+                    }
+                    PeerSt::Llgr => {
+                        slot.src = World::new_source(&self.cfg, peer);
+                        slot.st = PeerSt::LlgrUpAwaitingEor;
+                        true
+                    }
+                    _ => false,
                 }
-                PeerSt::Llgr => {
-                    self.sources[peer] = World::new_source(&self.cfg, peer);
-                    self.st[peer] = PeerSt::LlgrUpAwaitingEor;
-                    true
+            }
+            Op::StalePurge { peer } => {
+                let mut slot = self.peers[peer].lock().unwrap();
+                match slot.st {
+                    // EOR on the new session, or restart-timer expiry while down
+                    PeerSt::GrUpAwaitingEor => {
+                        self.tables.drop_stale_families(peer_addr(peer), &[f]);
+                        slot.st = PeerSt::Up;
+                        true
+                    }
+                    PeerSt::GrDown => {
+                        self.tables.drop_stale_families(peer_addr(peer), &[f]);
+                        slot.src = World::new_source(&self.cfg, peer);
+                        slot.st = PeerSt::Up;
+                        true
+                    }
+                    PeerSt::LlgrUpAwaitingEor => {
+                        // EOR after reconnecting from the LLGR period
+                        self.tables.drop_llgr_stale_families(peer_addr(peer), &[f]);
+                        self.tables.drop_stale_families(peer_addr(peer), &[f]);
+                        slot.st = PeerSt::Up;
+                        true
+                    }
+                    _ => false,
                 }
-                _ => false,
-            },
-            Op::StalePurge { peer } => match self.st[peer] {
-                // EOR on the new session, or restart-timer expiry while down
-                PeerSt::GrUpAwaitingEor => {
-                    self.tables.drop_stale_families(peer_addr(peer), &[f]);
-                    self.st[peer] = PeerSt::Up;
-                    true
-                }
-                PeerSt::GrDown => {
-                    self.tables.drop_stale_families(peer_addr(peer), &[f]);
-                    self.sources[peer] = World::new_source(&self.cfg, peer);
-                    self.st[peer] = PeerSt::Up;
-                    true
-                }
-                PeerSt::LlgrUpAwaitingEor => {
-                    // EOR after reconnecting from the LLGR period
-                    self.tables.drop_llgr_stale_families(peer_addr(peer), &[f]);
-                    self.tables.drop_stale_families(peer_addr(peer), &[f]);
-                    self.st[peer] = PeerSt::Up;
-                    true
-                }
-                _ => false,
-            },
+            }
             Op::LlgrMark { peer } => {
-                if self.st[peer] != PeerSt::GrDown {
+                let mut slot = self.peers[peer].lock().unwrap();
+                if slot.st != PeerSt::GrDown {
                     return false;
                 }
                 // restart timer expired with LLGR negotiated
                 self.tables.mark_llgr_stale(peer_addr(peer), &[f]);
-                self.st[peer] = PeerSt::Llgr;
+                slot.st = PeerSt::Llgr;
                 true
             }
             Op::LlgrPurge { peer } => {
-                if self.st[peer] != PeerSt::Llgr {
+                let mut slot = self.peers[peer].lock().unwrap();
+                if slot.st != PeerSt::Llgr {
                     return false;
                 }
                 self.tables.drop_llgr_stale_families(peer_addr(peer), &[f]);
-                self.sources[peer] = World::new_source(&self.cfg, peer);
-                self.st[peer] = PeerSt::Up;
+                slot.src = World::new_source(&self.cfg, peer);
+                slot.st = PeerSt::Up;
                 true
             }
             Op::NhFlap { nh, reachable } => {
@@ -766,6 +789,8 @@ struct Outcome {
     attr_errors: u64,
     routes_compared: u64,
     id_reuse_pending: bool,
+    bursts: u64,
+    sched_hits: u64,
 }
 
 fn diff(old: &BTreeMap<Key, Val>, new: &BTreeMap<Key, Val>) -> Option<(&'static str, Vec<String>)> {
@@ -799,6 +824,18 @@ fn diff(old: &BTreeMap<Key, Val>, new: &BTreeMap<Key, Val>) -> Option<(&'static 
 }
 
 async fn run_history(cfg: &ObsCfg, ops: &[Op], listener: &TcpListener) -> Outcome {
+    if cfg.concurrent {
+        crate::verif_hooks::install(fnv64(format!("{:?}", ops).as_bytes()), 60);
+    }
+    let mut out = run_history_inner(cfg, ops, listener).await;
+    if cfg.concurrent {
+        let (hits, _) = crate::verif_hooks::uninstall();
+        out.sched_hits = hits;
+    }
+    out
+}
+
+async fn run_history_inner(cfg: &ObsCfg, ops: &[Op], listener: &TcpListener) -> Outcome {
     let mut out = Outcome {
         failure: None,
         harness_err: None,
@@ -809,8 +846,10 @@ async fn run_history(cfg: &ObsCfg, ops: &[Op], listener: &TcpListener) -> Outcom
         attr_errors: 0,
         routes_compared: 0,
         id_reuse_pending: false,
+        bursts: 0,
+        sched_hits: 0,
     };
-    let mut world = World::new(cfg);
+    let world = Arc::new(World::new(cfg));
     let mut obs = match Observer::establish(cfg, &world.tables, listener).await {
         Ok(o) => o,
         Err(e) => {
@@ -824,9 +863,83 @@ async fn run_history(cfg: &ObsCfg, ops: &[Op], listener: &TcpListener) -> Outcom
     }
     let mut epoch_start = 0usize;
     let mut withdrawn_unflushed = false;
+    let is_rib_op = |o: &Op| !matches!(o, Op::Deliver { .. } | Op::Flush | Op::Check | Op::RouteRefresh);
+    let mut skip_until = 0usize;
     for (i, op) in ops.iter().enumerate() {
+        if i < skip_until {
+            continue;
+        }
         if trace() {
             eprintln!("  op {:?}", op);
+        }
+        if cfg.concurrent && is_rib_op(op) {
+            // a burst: the maximal run of RIB-side operations, issued from up to three
+            // threads (one per group of source peers; a peer's own order is preserved)
+            // while this thread keeps delivering change events and flushing
+            let mut j = i;
+            while j < ops.len() && is_rib_op(&ops[j]) && j - i < 12 {
+                j += 1;
+            }
+            skip_until = j;
+            let mut groups: Vec<Vec<Op>> = vec![Vec::new(), Vec::new(), Vec::new()];
+            for o in &ops[i..j] {
+                let g = match o {
+                    Op::Announce { peer, .. }
+                    | Op::Withdraw { peer, .. }
+                    | Op::PeerDown { peer }
+                    | Op::GrDown { peer }
+                    | Op::GrUp { peer }
+                    | Op::StalePurge { peer }
+                    | Op::LlgrMark { peer }
+                    | Op::LlgrPurge { peer } => peer % 3,
+                    _ => 0,
+                };
+                groups[g].push(o.clone());
+            }
+            let mut handles = Vec::new();
+            for (g, gops) in groups.into_iter().enumerate() {
+                if gops.is_empty() {
+                    continue;
+                }
+                let w = world.clone();
+                handles.push(std::thread::spawn(move || {
+                    crate::verif_hooks::set_thread_id(1 + g as u32);
+                    let mut applied: Vec<&'static str> = Vec::new();
+                    for o in &gops {
+                        if w.apply(o) {
+                            applied.push(o.kind());
+                        }
+                    }
+                    applied
+                }));
+            }
+            let mut spin = 0u64;
+            while handles.iter().any(|h| !h.is_finished()) {
+                spin += 1;
+                out.delivered += obs.deliver(1 + (spin % 3) as usize).await as u64;
+                if spin % 5 == 0 {
+                    if let Err(e) = obs.flush().await {
+                        out.harness_err = Some(format!("{:?}", e));
+                        break;
+                    }
+                }
+                std::thread::yield_now();
+            }
+            for h in handles {
+                match h.join() {
+                    Ok(applied) => {
+                        for k in applied {
+                            *out.applied.entry(k).or_insert(0) += 1;
+                        }
+                    }
+                    Err(_) => out.harness_err = Some("source thread panicked".into()),
+                }
+            }
+            out.bursts += 1;
+            if out.harness_err.is_some() {
+                break;
+            }
+            continue;
         }
         let r: Result<(), HarnessErr> = match op {
             Op::Deliver { k } => {
@@ -935,6 +1048,7 @@ fn gen_cfg(rng: &mut Rng) -> ObsCfg {
         as4: rng.chance(3, 4),
         shards: *rng.pick(&[1usize, 2, 4]),
         obs_is_source: rng.chance(1, 2),
+        concurrent: rng.chance(1, 4),
     }
 }
 
@@ -981,6 +1095,11 @@ fn run() {
         rep.count(if cfg.addpath { "branch:addpath" } else { "branch:plain" });
         rep.count(&format!("send-max:{}", cfg.send_max));
         rep.count(&format!("shards:{}", cfg.shards));
+        if cfg.concurrent {
+            rep.count("histories-concurrent");
+            rep.count_n("concurrent-bursts", out.bursts);
+            rep.count_n("sched-point-hits", out.sched_hits);
+        }
         if let Some(e) = &out.harness_err {
             rep.inconclusive(&format!("harness error: {}", e));
             continue;
@@ -990,6 +1109,32 @@ fn run() {
             rep.nontrivial(fnv64(format!("{:?}{:?}", cfg, ops).as_bytes()));
         }
         if let Some(f) = out.failure {
+            // a failure of a concurrent history is first re-run sequentially: if it is
+            // schedule-independent it is shrunk and reported like any other
+            let mut cfg = cfg.clone();
+            if cfg.concurrent {
+                let mut seq = cfg.clone();
+                seq.concurrent = false;
+                let o = rt.block_on(run_history(&seq, &ops, &listener));
+                if o.harness_err.is_none() && o.failure.as_ref().is_some_and(|g| g.kind == f.kind) {
+                    cfg = seq;
+                } else {
+                    let branch = if cfg.addpath && cfg.send_max > 1 { "addpath" } else { "plain" };
+                    rep.violation(
+                        &format!("C01/{}/{}/concurrent-only", f.kind, branch),
+                        &format!("after quiescence the neighbour's Adj-RIB-In differs from what a brand-new session is sent ({}); only with RIB operations issued concurrently from several threads", f.kind),
+                        Json::obj(vec![
+                            ("config", Json::s(format!("{:?}", cfg))),
+                            ("ops", ops_json(&ops)),
+                            ("differences", Json::strs(f.detail.clone())),
+                            ("shard_seed", Json::Int(params.seed as i128)),
+                            ("history_index", Json::Int(hist_idx as i128)),
+                            ("note", Json::s("schedule-dependent: replay is best-effort")),
+                        ]),
+                    );
+                    continue;
+                }
+            }
             // shrink: drop ops (never the final Check) while the same kind of failure remains
             let mut cur: Vec<Op> = ops.clone();
             // cut everything after the failing check
@@ -1020,13 +1165,38 @@ fn run() {
             TRACE.store(false, std::sync::atomic::Ordering::Relaxed);
             let detail = fin.failure.as_ref().map(|g| g.detail.clone()).unwrap_or(f.detail.clone());
             let branch = if cfg.addpath && cfg.send_max > 1 { "addpath" } else { "plain" };
-            let sig = format!("C01/{}/{}/{}", f.kind, branch, trigger_of(&cur));
+            let mut trigger = trigger_of(&cur).to_string();
+            // One precise pattern gets its own signature: an Add-Path neighbour misses a
+            // prefix that was removed and re-created (same path id) while a route refresh /
+            // soft reset out ran ahead of the queued removal + creation events.
+            if f.kind == "missing-route" && branch == "addpath" && (trigger == "export-policy-change" || trigger == "route-refresh") {
+                let missing: Vec<String> = detail
+                    .iter()
+                    .filter(|d| d.contains("missing from the neighbour's view"))
+                    .filter_map(|d| d.split(' ').next().map(|x| x.to_string()))
+                    .collect();
+                let recreated = missing.iter().any(|m| {
+                    let announces = cur
+                        .iter()
+                        .filter(|o| matches!(o, Op::Announce { pfx, .. } if format!("{}", prefix(&cfg, *pfx)) == *m))
+                        .count();
+                    let removed = cur.iter().any(|o| match o {
+                        Op::Withdraw { pfx, .. } => format!("{}", prefix(&cfg, *pfx)) == *m,
+                        Op::PeerDown { .. } | Op::StalePurge { .. } | Op::LlgrPurge { .. } => true,
+                        _ => false,
+                    });
+                    announces >= 1 && (announces >= 2 || removed)
+                });
+                if recreated && !missing.is_empty() {
+                    trigger = "refresh-read-ahead-of-recreated-prefix".to_string();
+                }
+            }
+            let sig = format!("C01/{}/{}/{}", f.kind, branch, trigger);
             rep.violation(
                 &sig,
                 &format!(
                     "after quiescence the neighbour's Adj-RIB-In differs from what a brand-new session is sent ({}; trigger: {})",
-                    f.kind,
-                    trigger_of(&cur)
+                    f.kind, trigger
                 ),
                 Json::obj(vec![
                     ("config", Json::s(format!("{:?}", cfg))),
